@@ -363,18 +363,21 @@ class Run:
             b.kind = "model"
             self.broken.append(b)
             return False
-        rel = prop_module.replace(".", "/") + ".v"
-        names = theorems_of(rel)
-        self.obligations = [prop_module + "." + n for n in names]
-        try:
-            coq_make([rel + "o"])
-            pa = print_assumptions(prop_module, names, self.work)
-            self.assumptions_out = pa
-            self.discharged = [prop_module + "." + n for n in names if n in pa]
-        except Broken as b:
-            self.broken.append(b)
-            ok = False
-        self.cov["examples_nonvacuity"] = examples_of(rel)
+        modules = [prop_module] if isinstance(prop_module, str) else list(prop_module)
+        self.cov["examples_nonvacuity"] = []
+        for pm in modules:
+            rel = pm.replace(".", "/") + ".v"
+            names = theorems_of(rel)
+            self.obligations += [pm + "." + n for n in names]
+            try:
+                coq_make([rel + "o"])
+                pa = print_assumptions(pm, names, self.work)
+                self.assumptions_out.update({pm + "." + k: v for k, v in pa.items()})
+                self.discharged += [pm + "." + n for n in names if n in pa]
+            except Broken as b:
+                self.broken.append(b)
+                ok = False
+            self.cov["examples_nonvacuity"] += examples_of(rel)
         return ok and len(self.discharged) == len(self.obligations)
 
     # -- failing inputs and verdict
